@@ -209,6 +209,11 @@ func UseSites() []UseSite {
 		{Tag: "local alias LA=Plain; var v LA", Stmt: "{ type LA = {q}Plain; var $v LA; _ = $v }", Kind: UKNone, TONL: true, Core: true},
 		{Tag: "local alias LA=Mock; field LA", Stmt: "{ type LA = {q}Mock; type $v struct{ f LA } }", Kind: UKType, Type: "Mock", TONL: true},
 		{Tag: "local alias LA=Plain; field LA", Stmt: "{ type LA = {q}Plain; type $v struct{ f LA } }", Kind: UKNone, TONL: true},
+		// an alias whose target is a POINTER to the annotated type (and a pointer to an alias of it)
+		{Tag: "local alias LP=*Mock; var v LP", Stmt: "{ type LP = *{q}Mock; var $v LP; _ = $v }", Kind: UKType, Type: "Mock", TONL: true, Core: true},
+		{Tag: "local alias LP=*Mock2; param LP", Stmt: "{ type LP = *{q}Mock2; _ = func(LP) {} }", Kind: UKType, Type: "Mock2", TONL: true},
+		{Tag: "local alias LA=Mock; var v *LA", Stmt: "{ type LA = {q}Mock; var $v *LA; _ = $v }", Kind: UKType, Type: "Mock", TONL: true},
+		{Tag: "local alias LP=*Plain; var v LP", Stmt: "{ type LP = *{q}Plain; var $v LP; _ = $v }", Kind: UKNone, TONL: true},
 		// several uses nested inside one statement
 		{Tag: "nested HelperArg(Helper())", Stmt: "{q}HelperArg({q}Helper())", Kind: UKFunc, TONL: true, Core: true,
 			Refs: []UseRef{{Kind: UKFunc}, {Kind: UKFunc}}},
@@ -480,8 +485,14 @@ func usePreludeD(w *lineWriter, m UseMix) {
 		m.ann(w, "", ItReset)
 		w.add("func (s S) Reset() {}")
 		w.add("")
-		w.add("// Reset of S3 carries the same annotation.")
-		m.ann(w, "", ItReset)
+		w.add("// Reset of S3 is annotated whenever S's is, but with an allow-list of its OWN (S3AllowList): two restricted")
+		w.add("// items of one name in one package whose verdicts differ for the same using package.")
+		if m.Skip&ItReset == 0 {
+			if m.TestOnly {
+				w.add("// @testonly")
+			}
+			w.add("// @packageonly " + S3AllowList)
+		}
 		w.add("func (S3) Reset() {}") // unnamed receiver
 		w.add("")
 		w.add("// Reset of the generic GS carries the same annotation.")
@@ -804,6 +815,13 @@ func (s *S) ResetP() {}
 	return out
 }
 
+// S3AllowList is the fixed allow-list of (S3).Reset: the package name u and the import path of w.
+const S3AllowList = "u, ex.com/m/w"
+
+func s3Allowed(p UsePkg) bool {
+	return p.Path == PathD || p.Name == "u" || p.Path == "ex.com/m/w"
+}
+
 // ExpectUse is the reference for C03 (fam "TONL") and C04 (fam "PKGO"): expected codes per
 // rendered site, applying the once-per-file-and-type rule in textual order.
 func ExpectUse(fam string, s *UseSpec, rd *UseRendered) [][]string {
@@ -833,7 +851,11 @@ func ExpectUse(fam string, s *UseSpec, rd *UseRendered) [][]string {
 				}
 				pre = "TONL"
 			case "PKGO":
-				if Allowed(s.Pkg, s.Mix.Allow) {
+				if strings.Contains(ref.Tag, "s3.Reset") {
+					if s3Allowed(s.Pkg) {
+						continue
+					}
+				} else if Allowed(s.Pkg, s.Mix.Allow) {
 					continue
 				}
 				pre = "PKGO"
